@@ -31,6 +31,15 @@ from . import findings
 MAX_KEEP = 60  # violations kept per worker (all are counted)
 
 
+class ExplorationTimeout(RuntimeError):
+    """The exploration did not finish within the time limit (about 30 times what it needs on the unchanged tree): the code under
+    test hangs or has become pathologically slow on some case."""
+
+    def __init__(self, limit):
+        super().__init__("exploration did not finish within %.0f s" % limit)
+        self.limit = limit
+
+
 class Rec:
     """Outcome recorder for one case.
 
@@ -176,8 +185,14 @@ def explore(modname, tier, seed, jobs=None):
         parts = [_worker((modname, tier, seed, 0, 1))]
     else:
         ctx = mp.get_context("fork")
+        limit = float(os.environ.get("VERIF_TIME_LIMIT", "0") or 0) or (1500.0 if tier == "quick" else 4 * 3600.0)
         with ctx.Pool(jobs) as pool:
-            parts = pool.map(_worker, [(modname, tier, seed, r, jobs) for r in range(jobs)], chunksize=1)
+            res = pool.map_async(_worker, [(modname, tier, seed, r, jobs) for r in range(jobs)], chunksize=1)
+            try:
+                parts = res.get(timeout=limit)
+            except mp.TimeoutError:
+                pool.terminate()
+                raise ExplorationTimeout(limit)
     merged = dict(
         n=0, nontrivial=0, trans=0, nchecks=0, states=set(), nt_states=set(), classes=Counter(), skips=Counter(),
         viol=[], nviol=0, samples=[], maxratio=0.0, maxratio_case=None, counters=Counter(), known=Counter(),
